@@ -38,6 +38,8 @@ def devreply(d: dict, dev_state: dict) -> bytes:
         return bytes(d["b"])
     if t == "login":
         b = _fill(rng, d.get("len", 44))
+        if "sess" in d and len(b) >= 12:
+            b[8:12] = bytes(d["sess"])          # a session id that happens to contain protocol markers
         return bytes(b)
     if t == "short":
         return bytes(_fill(rng, d["n"]))
